@@ -7,6 +7,7 @@ import MtblProofs.TpKOrder
 import MtblProofs.TpKWake
 import MtblProofs.TpKUnord
 import MtblProofs.TpKDead
+import MtblProofs.TpKTerm
 import MtblProofs.OwnerProofs
 /-
   C13 — Pooled writers and sorters: same result under every interleaving, no hangs.
@@ -309,6 +310,32 @@ theorem C13_kclient_no_hang {n max njobs : Nat} {o : Bool} {s : St} (hr : Reacha
     rw [hq w] at hw; cases hw
   exact ⟨hd, (wk_reachable hr).over (by rw [hd]; rfl)⟩
 
+/-- PROGRESS MEASURE, for every number of clients: in every reachable state every real step of any thread — owner, callers,
+    handlers, workers — strictly decreases `Phi`, and a spurious wake-up increases it by at most one -/
+theorem C13_kclient_progress {n max njobs : Nat} {o : Bool} {s s' : St} {l : Lbl} (hr : Reachable n max njobs o s)
+    (hn : 1 ≤ n) (hs : step s l = some s') :
+    match l with
+    | .run _ _ => Phi s' < Phi s
+    | .spurious _ => Phi s' ≤ Phi s + 1 :=
+  phi_step (live_reachable hn hr) (bound_reachable hr) hs
+
+/-- hence along EVERY schedule from the initial state — fair or not; any number of clients, pool size, job count; ordered
+    or unordered — the number of real steps taken is at most `n·(128·njobs + 73) + 40·max + 24` plus the number of spurious
+    wake-ups that occurred: no schedule keeps a shared pool busy for ever unless the OS delivers infinitely many spurious
+    wake-ups.  With `C13_kclient_no_hang`: every maximal execution with finitely many spurious wake-ups ends with every
+    client's close and the owner's `threadpool_destroy` returned. -/
+theorem C13_kclient_steps_bounded {n max njobs : Nat} {o : Bool} (hn : 1 ≤ n) (ls : List Lbl) :
+    (stepCount (init n max njobs o) ls).1 ≤
+      n * (128 * njobs + 73) + 40 * max + 24 + (stepCount (init n max njobs o) ls).2 :=
+  steps_bounded hn ls
+
+/-- and from every reachable state the final state can still be reached, by a schedule of at most `Phi s` real steps and no
+    spurious wake-up -/
+theorem C13_kclient_can_finish {n max njobs : Nat} {o : Bool} {s : St} (hn : 1 ≤ n) (hm : 1 ≤ max)
+    (hr : Reachable n max njobs o s) :
+    ∃ ls : List Who, ls.length ≤ Phi s ∧ (runSched s (ls.map fun w => .run w 0)).opc = .done :=
+  can_finish hn hm hr
+
 /-- the invariants behind it hold in every reachable state: a worker asleep at its loop head has nothing to do, a handler
     asleep on its queue has an empty queue and is still owed a result or the finish flag, a caller asleep in
     `threadpool_next` sees the pool exhausted, the owner asleep in `threadpool_destroy` sees an empty idle list and a
@@ -334,6 +361,11 @@ example : (exSleep.cl.toList.map (·.pc)) = [CPc.assign 0, CPc.next true] ∧ ex
     only worker in client 0's hands) the owner has not finished and client 0 can move -/
 example : exSleep.opc ≠ .done ∧
     (step exSleep (.run (.client 0) 0)).isSome = true := by
+  decide +kernel
+
+/-- the counting function on a concrete schedule (the nine steps to `exSleep`, with one spurious wake-up of a thread that
+    is not asleep — skipped — and one of the sleeping client 1 — counted) -/
+example : stepCount (init 2 1 1 true) (exSleepSched ++ [.spurious (.client 0), .spurious (.client 1)]) = (9, 1) := by
   decide +kernel
 
 /-- why `1 ≤ max` is needed: with a pool of ZERO workers (which `mtbl_threadpool_init` never creates) the first dispatch
